@@ -250,9 +250,9 @@ Qed.
 Lemma rel_path_equiv : forall r i idx, rel_path r ds i idx = rel_path r ds' i idx.
 Proof.
   intros r i idx. unfold rel_path. rewrite get_quad_equiv.
-  destruct (get_quad ds' i) as [q| | |]; cbn [bind]; auto.
-  destruct (pred_iri q) as [p| | |]; cbn [bind]; auto.
-  now rewrite (eq_total _ _ EQ), walk_equiv.
+  destruct (get_quad ds' i) as [q| | |]; cbn [bind]; [|reflexivity|reflexivity|reflexivity].
+  destruct (pred_iri q) as [p| | |]; cbn [bind]; [|reflexivity|reflexivity|reflexivity].
+  rewrite (eq_total _ _ EQ), walk_equiv. reflexivity.
 Qed.
 
 Lemma graph_entries_equiv : forall F prime r g counts l seen out,
